@@ -212,6 +212,9 @@ func (server *Server) LRange(conn *redis.Conn, key string, start int, stop int) 
 	if err != nil {
 		return nil, err
 	}
+	if !db.HasRecord(key) {
+		return redis.NewArrayMessage(), nil
+	}
 
 	_, list, err := db.GetListRecord(key)
 	if err != nil {
@@ -233,6 +236,9 @@ func (server *Server) LIndex(conn *redis.Conn, key string, idx int) (*redis.Mess
 	if err != nil {
 		return nil, err
 	}
+	if !db.HasRecord(key) {
+		return redis.NewNilMessage(), nil
+	}
 
 	_, list, err := db.GetListRecord(key)
 	if err != nil {
@@ -251,6 +257,9 @@ func (server *Server) LLen(conn *redis.Conn, key string) (*redis.Message, error)
 	db, err := server.GetDatabase(conn.Database())
 	if err != nil {
 		return nil, err
+	}
+	if !db.HasRecord(key) {
+		return redis.NewIntegerMessage(0), nil
 	}
 
 	_, list, err := db.GetListRecord(key)
